@@ -54,7 +54,9 @@ func (fr *sxFrame) callFn(x *ssa.Call, callee *ssa.Function, args []sxVal, free 
 			if v, ok := fr.method(x, obj, callee.Name(), args[1:]); ok {
 				return v
 			}
-			sx.stop("%s: method %s of a modelled %s object is not modelled", fr.fn.Name(), callee.Name(), obj.Kind)
+			if obj.Kind != "ext" {
+				sx.stop("%s: method %s of a modelled %s object is not modelled", fr.fn.Name(), callee.Name(), obj.Kind)
+			}
 		}
 	}
 	if sx.HashCtor != nil {
@@ -73,11 +75,19 @@ func (fr *sxFrame) callFn(x *ssa.Call, callee *ssa.Function, args []sxVal, free 
 	if sx.E.P.InModule(callee) && callee.Blocks != nil {
 		return sx.run(callee, args, free, fr.depth+1)
 	}
+	// printing and logging only read their arguments
+	switch callee.String() {
+	case "fmt.Println", "fmt.Printf", "fmt.Print", "log.Println", "log.Printf", "log.Print",
+		"(*log.Logger).Println", "(*log.Logger).Printf", "(*log.Logger).Print":
+		sx.Unknown = append(sx.Unknown, callee.String())
+		return sx.opaqueOf(x.Type(), "result of "+callee.String())
+	}
 	// an unmodelled library function: harmless only if it cannot write anything we track
 	for _, a := range args {
 		switch a.(type) {
 		case sxInt, sxBool, sxStr, sxFunc, sxOpaque:
 		case sxIface:
+		case sxObj:
 		default:
 			sx.stop("%s: call of %s, which is not modelled and receives a reference", fr.fn.Name(), callee.String())
 		}
@@ -281,6 +291,14 @@ func (fr *sxFrame) builtin(x *ssa.Call, name string, args []sxVal) sxVal {
 				return sxK(l, 64)
 			}
 			return sxInt{V: lanes.TopVec(64), T: TmLen(a.T)}
+		case sxDyn:
+			if name == "len" {
+				if k, ok := a.B.Len, a.B.Len.Op == "int"; ok {
+					return sxK(k.N, 64)
+				}
+				return sxInt{V: lanes.TopVec(64), T: a.B.Len}
+			}
+			return sxInt{V: lanes.TopVec(64), T: sx.top("capacity chosen by the runtime")}
 		case sxSlice:
 			if a.Nil {
 				return sxK(0, 64)
@@ -462,6 +480,14 @@ func (fr *sxFrame) appendB(x *ssa.Call, args []sxVal) sxVal {
 
 func (fr *sxFrame) copyB(args []sxVal) sxVal {
 	sx := fr.sx
+	if d, isDyn := args[0].(sxDyn); isDyn {
+		t, okT := sx.bytesTerm(args[1])
+		if !okT {
+			sx.stop("%s: copy from a %T", fr.fn.Name(), args[1])
+		}
+		sx.overwrite(fr, d, t, "copy", TmLen(t))
+		return sx.lenVal(t)
+	}
 	dst, ok := args[0].(sxSlice)
 	if !ok {
 		sx.stop("%s: copy into a %T", fr.fn.Name(), args[0])
@@ -523,6 +549,18 @@ func (fr *sxFrame) copyB(args []sxVal) sxVal {
 		fr.store(sxPtr{dst.Arr.Kids[dst.Lo+i]}, src[i])
 	}
 	return sxK(n, 64)
+}
+
+// overwrite replaces the whole content of a symbolic-length buffer by t, which
+// must have exactly the buffer's length.
+func (sx *Sx) overwrite(fr *sxFrame, d sxDyn, t *Tm, what string, n *Tm) {
+	if d.B.viewed {
+		sx.stop("%s: %s into a buffer of which a window was taken earlier", fr.fn.Name(), what)
+	}
+	if !SameTm(n, d.B.Len) {
+		sx.stop("%s: %s of %s bytes into a buffer of %s bytes (lengths not provably equal)", fr.fn.Name(), what, n.Short(), d.B.Len.Short())
+	}
+	d.B.T = t
 }
 
 // ---- interface methods --------------------------------------------------------------------
@@ -600,28 +638,66 @@ func (fr *sxFrame) method(x *ssa.Call, o *sxObject, name string, args []sxVal) (
 			return sxK(64, 64), true
 		}
 	case "cipher":
+		bs, op := 8, "des"
+		if o.Ctor == "crypto/aes.NewCipher" {
+			bs, op = 16, "aes"
+		}
 		switch name {
 		case "BlockSize":
-			return sxK(8, 64), true
+			return sxK(bs, 64), true
 		case "Encrypt", "Decrypt":
 			dst, ok := args[0].(sxSlice)
-			if !ok || dst.Nil || dst.Len() < 8 {
-				sx.stop("%s: %s into a destination that is not an array-backed buffer of at least 8 bytes", fr.fn.Name(), name)
+			if !ok || dst.Nil || dst.Len() < bs {
+				sx.stop("%s: %s into a destination that is not an array-backed buffer of at least %d bytes", fr.fn.Name(), name, bs)
 			}
 			src := bytesArg(1)
-			if !sx.prefixKnown(src, 8) {
-				sx.stop("%s: %s of a source that is not provably 8 bytes long", fr.fn.Name(), name)
+			if !sx.prefixKnown(src, bs) {
+				sx.stop("%s: %s of a source that is not provably %d bytes long", fr.fn.Name(), name, bs)
 			}
-			p, _ := tmSlice(src, 0, 8)
-			op := "des"
+			p, _ := tmSlice(src, 0, bs)
 			if name == "Decrypt" {
-				op = "desdec"
+				op += "dec"
 			}
-			ct := &Tm{Op: op, A: []*Tm{o.Key, p}, KV: o.KV}
-			for i := 0; i < 8; i++ {
+			ct := &Tm{Op: op, A: []*Tm{o.Key, p}, KV: o.KV, M: bs}
+			for i := 0; i < bs; i++ {
 				fr.store(sxPtr{dst.Arr.Kids[dst.Lo+i]}, sxInt{V: lanes.SrcByte(sx.srcOf(ct), i)})
 			}
 			return nil, true
+		}
+	case "mode":
+		switch name {
+		case "BlockSize":
+			return sxK(16, 64), true
+		case "CryptBlocks":
+			src := bytesArg(1)
+			out := &Tm{Op: "app", S: o.Ctor, A: []*Tm{o.Key, o.Args[0], src}, M: src.Len()}
+			sx.Trace = append(sx.Trace, "CryptBlocks <"+o.Ctor+"> after: "+strings.Join(sx.Assumed, "; "))
+			switch dst := args[0].(type) {
+			case sxDyn:
+				sx.overwrite(fr, dst, out, "CryptBlocks", TmLen(src))
+			case sxSlice:
+				l := src.Len()
+				if dst.Nil || l < 0 || dst.Len() < l {
+					sx.stop("%s: CryptBlocks into a destination that is not provably as long as the source", fr.fn.Name())
+				}
+				for i := 0; i < l; i++ {
+					fr.store(sxPtr{dst.Arr.Kids[dst.Lo+i]}, sxInt{V: sx.byteOf(out, i)})
+				}
+			default:
+				sx.stop("%s: CryptBlocks into a %T (an immutable value or one that is not modelled)", fr.fn.Name(), args[0])
+			}
+			// chaining continues from the last block written
+			o.Args = []*Tm{{Op: "lastblock", A: []*Tm{out}, M: 16}}
+			return nil, true
+		}
+	case "ext":
+		if strings.HasPrefix(o.Ctor, "encoding/base64.") {
+			switch name {
+			case "EncodeToString":
+				return sxStr{sx.TmApp("base64.EncodeToString<"+o.Ctor+">", bytesArg(0))}, true
+			case "DecodeString":
+				return sxTuple{sxStr{sx.TmApp("base64.DecodeString<"+o.Ctor+">", bytesArg(0))}, nilErr}, true
+			}
 		}
 	case "buf":
 		switch name {
@@ -817,6 +893,81 @@ func (fr *sxFrame) stdlib(x *ssa.Call, callee *ssa.Function, args []sxVal) (sxVa
 		return sxStr{&Tm{Op: "rep", S: s.S, A: []*Tm{sx.intTerm(intArg(1))}}}, true
 	case "encoding/hex.EncodeToString":
 		return sxStr{sx.TmApp(name, bytesArg(0))}, true
+	case "encoding/hex.AppendEncode":
+		return fr.appendB(x, []sxVal{args[0], sxStr{sx.TmApp("encoding/hex.EncodeToString", bytesArg(1))}}), true
+	case "encoding/hex.Encode":
+		dst, okd := args[0].(sxSlice)
+		h := sx.TmApp("encoding/hex.EncodeToString", bytesArg(1))
+		l := h.Len()
+		if !okd || dst.Nil || l < 0 || dst.Len() < l || h.HasTop() {
+			sx.stop("%s: hex.Encode into a destination that is not an array-backed buffer provably long enough", fr.fn.Name())
+		}
+		for i := 0; i < l; i++ {
+			fr.store(sxPtr{dst.Arr.Kids[dst.Lo+i]}, sxInt{V: sx.byteOf(h, i)})
+		}
+		return sxK(l, 64), true
+	case "strings.Join", "bytes.Join":
+		parts, okp := args[0].(sxSlice)
+		if !okp {
+			return nil, false
+		}
+		sep := bytesArg(1)
+		var ts []*Tm
+		if !parts.Nil {
+			for i := parts.Lo; i < parts.Hi; i++ {
+				t, ok := sx.bytesTerm(parts.Arr.Kids[i].Leaf)
+				if !ok {
+					return nil, false
+				}
+				if i > parts.Lo {
+					ts = append(ts, sep)
+				}
+				ts = append(ts, t)
+			}
+		}
+		return sxStr{TmCat(ts...)}, true
+	case "fmt.Appendf":
+		return fr.appendB(x, []sxVal{args[0], fr.sprintf(args[1:])}), true
+	case "encoding/binary.Write":
+		w := sx.objOf(args[0], nil)
+		ord := sx.objOf(args[1], nil)
+		if w == nil || (w.Kind != "buf" && w.Kind != "hash") || ord == nil || ord.Kind != "ext" {
+			return nil, false
+		}
+		be := false
+		switch ord.Ctor {
+		case "encoding/binary.LittleEndian":
+		case "encoding/binary.BigEndian":
+			be = true
+		default:
+			return nil, false
+		}
+		d := args[2]
+		var dt types.Type
+		if iv, isI := d.(sxIface); isI {
+			d, dt = iv.V, iv.T
+		}
+		var t *Tm
+		switch y := d.(type) {
+		case sxInt:
+			w8, _, okW := lanes.IntWidth(dt)
+			if !okW || w8%8 != 0 {
+				return nil, false
+			}
+			var parts []*Tm
+			for _, b := range sx.intBytes(y, w8/8, be) {
+				parts = append(parts, sx.cellTerm(b))
+			}
+			t = TmCat(parts...)
+		default:
+			bt, okB := sx.bytesTerm(d)
+			if !okB {
+				return nil, false
+			}
+			t = bt
+		}
+		w.In = append(w.In, t)
+		return nilErr, true
 	case "encoding/hex.EncodedLen":
 		if k, ok := sx.constInt(args[0]); ok {
 			return sxK(2*k, 64), true
@@ -890,6 +1041,34 @@ func (fr *sxFrame) stdlib(x *ssa.Call, callee *ssa.Function, args []sxVal) (sxVa
 		}
 		o := &sxObject{Kind: "cipher", Ctor: name, Key: k, KV: kv}
 		return sxTuple{sxIface{V: sxObj{o}, T: x.Type().(*types.Tuple).At(0).Type()}, nilErr}, true
+	case "crypto/aes.NewCipher":
+		k := bytesArg(0)
+		if l := k.Len(); l != 16 && l != 24 && l != 32 {
+			sx.stop("%s: aes.NewCipher with a key that is not provably 16, 24 or 32 bytes long (%s)", fr.fn.Name(), k.Short())
+		}
+		o := &sxObject{Kind: "cipher", Ctor: name, Key: k}
+		return sxTuple{sxIface{V: sxObj{o}, T: x.Type().(*types.Tuple).At(0).Type()}, nilErr}, true
+	case "crypto/cipher.NewCBCEncrypter", "crypto/cipher.NewCBCDecrypter":
+		b := sx.objOf(args[0], nil)
+		if b == nil || b.Kind != "cipher" {
+			sx.stop("%s: %s over a block cipher that is not modelled", fr.fn.Name(), name)
+		}
+		iv := bytesArg(1)
+		bs := 8
+		if b.Ctor == "crypto/aes.NewCipher" {
+			bs = 16
+		}
+		if l := iv.Len(); l >= 0 && l != bs {
+			sx.stop("%s: %s with an iv of %d bytes for a block of %d — the code would panic", fr.fn.Name(), name, l, bs)
+		} else if l < 0 {
+			sx.stop("%s: %s with an iv whose length is not fixed", fr.fn.Name(), name)
+		}
+		dir := "cbc-enc"
+		if strings.HasSuffix(name, "Decrypter") {
+			dir = "cbc-dec"
+		}
+		o := &sxObject{Kind: "mode", Ctor: dir + "<" + b.Ctor + ">", Key: b.Key, Args: []*Tm{iv}}
+		return sxIface{V: sxObj{o}, T: x.Type()}, true
 	case "golang.org/x/crypto/pbkdf2.Key":
 		f := sx.argTerm(args[4])
 		if f == nil {
